@@ -107,8 +107,12 @@ def path(ctx, cfg):
     ok_range = isinstance(S, float) and any(abs(S * N - j) < 1e-9 for j in range(1, N + 1))
     ctx.require(ok_range, "range", f"result {S} is not a multiple of 1/{N} in [1/{N}, 1]", twin=(not ok_range))
     draws = [r for r in ctx.rng_log[n0:] if r["fn"] == "random"]
-    if len(draws) != m or len(ctx.rng_log) - n0 != m:
-        ctx.note("undecided: edges are not randomised by exactly one random.random()/uniform() draw each")
+    if len(draws) != len(ctx.rng_log) - n0:
+        ctx.note("undecided: edges are not randomised through random.random()/uniform() only")
+        return
+    ctx.require(len(draws) == m, "law", f"nodes={nodes} edges={edges}: {len(draws)} uniform draws for {m} bonds (each bond needs its own independent draw)",
+                sig="law:draws-per-bond")
+    if len(draws) != m:
         return
     order = list(g.edges())  # G = g.copy() iterates edges in the same order
     r = [d["result"] for d in draws]
